@@ -193,3 +193,50 @@ def delta_family(ck, tier, wd, rnd):
         ck.case(sc.name)
     ck.extra["alloc_update_runs"] = len(jobs); ck.extra["alloc_update_process_ended"] = ended
     return trace, owner, scripts_by
+
+
+def asan_reader_sweep(ck, tier, wd, rnd):
+    """C03: reads of valid files (chunks stored in several 32 KiB pieces, a dictionary, uncompressed-source checksums) under
+    ASan/UBSan while every allocation made by zchunk's own code is refused in turn.  A process that stops on a NULL pointer
+    is zchunk's present out-of-memory behaviour and is recorded; corruption of the heap (double free, use after free, an
+    access outside a block) is a memory-safety violation whatever caused the failing call.  Returns [(what, script)]"""
+    import re
+    from concurrent.futures import ThreadPoolExecutor
+    files = []
+    for i, (comp, dic, flags, sizes, kind) in enumerate([(0, False, 0, [70000, 3000], "rand"), (2, True, 0, [70000, 500], "rand"), (2, False, 4, [900, 700, 800], "text")]):
+        ch = [corpus.text(rnd, 30) if dic else b""] + [(corpus.rand if kind == "rand" else corpus.text)(rnd, n) for n in sizes]
+        buf = ref.build_file(ch, comp_type=comp, hash_type=1, chunk_hash_type=1 if flags else 3, level=3, flags=flags)[0]
+        p = os.path.join(wd, "asw%d.zck" % i); open(p, "wb").write(buf); files.append((i, p, len(b"".join(ch[1:]))))
+    jobs = []
+    for (i, p, total) in files:
+        sizes = [4096] * (total // 4096 + 3)
+        for tail in (["close 0", "free 0"], ["chunk_data 0 1 -1", "validate_checksums 0", "free 0"]):
+            body = readtrace.read_script("asw%d-%d" % (i, len(tail)), p, os.path.join(wd, "asw%d.out" % i), sizes, post=tuple(tail))
+            n, _ev = _count(body, "asan")
+            for k in _points(n, tier, rnd, 40):
+                jobs.append((i, k, n, _arm(body, k, 1)))
+    def work(j):
+        i, k, n, s = j
+        errp = os.path.join(wd, "asw-%d-%d-%d.err" % (i, k, abs(hash(s)) % 100000))
+        ev = common.run_driver(s, "asan", None, 120, errp)
+        rep = open(errp, "rb").read().decode("latin1") if os.path.exists(errp) else ""
+        return ev, rep
+    with ThreadPoolExecutor(max_workers=common.NCPU) as ex:
+        res = list(ex.map(work, jobs))
+    out = []; ended = {}; seen = set()
+    for (i, k, n, s), (ev, rep) in zip(jobs, res):
+        ck.case(("alloc-asan", i, k, len(s)))
+        m = re.search(r"ERROR: AddressSanitizer: ([a-z\-]+(?: on address which was not malloc)?)", rep)
+        kind = m.group(1) if m else None
+        if any(e["op"] == "Hang" for e in ev):
+            kind = "hang"
+        if kind in ("double-free", "heap-use-after-free", "heap-buffer-overflow", "stack-buffer-overflow", "global-buffer-overflow", "attempting", "bad-free", "hang") or (kind and kind.startswith("attempting")):
+            summ = [x for x in rep.splitlines() if x.startswith("SUMMARY")]
+            key = (kind, summ[0][:120] if summ else "")
+            if key not in seen:
+                seen.add(key)
+                out.append(("reader file %d with allocation %d of %d refused: %s %s" % (i, k, n, kind, " | ".join(summ)[:300]), s))
+        elif kind or any(e["op"] == "Crash" for e in ev):
+            ended[kind or "exit"] = ended.get(kind or "exit", 0) + 1
+    ck.extra["alloc_asan_runs"] = len(jobs); ck.extra["alloc_asan_process_ended"] = ended
+    return out
